@@ -7,7 +7,7 @@ hook_commits = [l.split()[0] for l in log if l.split(' ', 1)[1].startswith("veri
 fix_commits = [l for l in log if l.split(' ', 1)[1].startswith("fix:")][::-1]
 
 T = {
- "C01": ("offline oracle over recorded sequential histories: ground-truth log (harness-side map with timestamps) judges every get / contains_key / iteration item",
+ "C01": ("offline oracle over recorded sequential histories: ground-truth log (harness-side map with timestamps) judges every get / contains_key / iteration item, also beside injected callback panics, beyond one purge batch and centuries after the cache was built; concurrent history checker on chase / storm programs",
          "Held on the executions produced: every lookup of ~3x10^5 (quick) to ~8x10^6 (thorough) seeded histories over both cache kinds and the configuration lattice is judged against a harness-side ground-truth log; histories include long ones (200-400 ops) that reach the 64-op flush points without sync(). Sampling, not exhaustion."),
  "C02": ("randomized schedule exploration at hooked switch points (serialized seeded scheduler, replayable) + free-running stress/chase workloads + offline per-key history checker (necessary conditions of linearizability)",
          "Held on the sampled schedules. The property text mentions exhaustive exploration up to a preemption bound: that is not done (enumeration belongs to another technique); distinct interleavings (trace hashes) and a saturation count are reported instead. One-thread histories on the concurrent cache are judged as degenerate interleavings too."),
@@ -15,17 +15,17 @@ T = {
          "Held on the executions produced, except the recorded consequences of the known findings F-S3 / F-S5 (capacity taken by an entry that maintenance should have purged), attributed by exact cause."),
  "C04": ("invariant at quiescent points on the hooked snapshot (sum of resident weights) + sampled overshoot bound in un-synced bursts + counters-low drift after concurrent phases (debug, release and unoptimized builds)",
          "Held on the executions produced."),
- "C05": ("ground-truth deadline oracle over histories with boundary-targeted clock advances; bulk histories above one purge batch; iterators held across clock advances; histories with injected callback panics (operations of unknown outcome keep both outcomes in the oracle)",
+ "C05": ("ground-truth deadline oracle over histories with boundary-targeted clock advances; bulk histories above one purge batch; iterators held across clock advances; histories with injected callback panics (the oracle follows the physical outcome of a faulted operation); far-future scenarios (time-to-live of 600 / 1000 years); concurrent expiry chase (no get returns a value written a full period before it began)",
          "Held on the executions produced."),
- "C06": ("ground-truth deadline oracle (idle deadline = latest insert / update / successful get) with boundary-targeted clock advances; bulk histories; iterators held across clock advances",
+ "C06": ("ground-truth deadline oracle (idle deadline = latest insert / update / successful get) with boundary-targeted clock advances; bulk histories; iterators held across clock advances; injected callback panics (a get that panicked is no access); read bursts beyond the read log; concurrent expiry chase judged by a least-fixpoint justification rule over the recorded call / return intervals",
          "Held on the executions produced."),
  "C07": ("ground-truth history oracle (targets invisible for good, everything else retrievable) + concurrent history checker with invalidations as superseding operations + must-live-at-quiescence rule",
          "Held on the executions produced."),
  "C08": ("sanitizers and interpreters over hostile workloads incl. injected faults (panics in the caller's own callbacks): native debug (panic hook + structural walker), ASan+LSan, Miri; thorough adds TSan, Tree Borrows, valgrind memcheck",
          "No violation observed on the executions produced by three independent observers. A clean sanitizer run is not a proof of memory safety; Miri runs the tagged-pointer code under permissive provenance."),
- "C09": ("bounded-progress monitoring: logical deadlock / livelock detection in a serialized scheduler (no runnable thread, step budget, retry bound), progress guard on the maintenance loops, CPU-idle deadlock criterion, maintenance flag at quiescence",
+ "C09": ("bounded-progress monitoring: logical deadlock / livelock detection in a serialized scheduler (no runnable thread, step budget, retry bound), progress guard on the maintenance loops, thread-state deadlock criterion (every thread seen blocked, never runnable, no CPU time) incl. a sentinel for the main thread and a writer beside pure observers, maintenance flag at quiescence",
          "Unbounded liveness cannot be decided by a finite run: restated as bounded progress and decided on logical evidence. Wall-clock watchdogs only make a run inconclusive."),
- "C10": ("invariant at quiescent points: counters vs hooked snapshot of what is physically held (sequential, after concurrent phases, in debug / release / unoptimized builds)",
+ "C10": ("invariant at quiescent points: counters vs hooked snapshot of what is physically held, held weights vs the caller's weigher (sequential, at faulted operations, after concurrent phases, in debug / release / unoptimized builds)",
          "Held on the executions produced, except the known finding F-S3 (entries hidden by invalidate_all that the purge scan cannot reach), attributed by an exact state predicate."),
  "C11": ("drop-tracking key/value types with a live-object registry, checked at quiescent points and after drop; dead entries released after maintenance; LSan / Miri leak checks",
          "Held on the executions produced, except the known findings F-S3 and F-S5 (entries that maintenance does not release)."),
@@ -35,7 +35,7 @@ T = {
          "Held on the executions produced; equal-estimate decisions and multi-victim admissions are generated on purpose and counted."),
  "C14": ("online reference-model monitor on the real sketch (facade) + popularity-table comparison around every cache API call",
          "Held on the executions produced; bounded-exhaustive only over tiny universes (3 hashes x 9-13 steps at capacities 0..3), sampled otherwise."),
- "C15": ("metamorphic pairs (history vs history plus extra observations) compared on results and hooked state",
+ "C15": ("metamorphic pairs (history vs history plus extra observations, also with un-synced operations) compared on results and hooked state; concurrent form: a deterministic single-writer program alone vs beside threads that only observe (contains_key, iteration, held entry references, counters)",
          "Held on the pairs produced."),
  "C16": ("ground-truth multiset oracle for sequential iteration (also with the clock advancing under a live iterator) + free-running writers / churn / iterators stress with recorded operation intervals + must-live-at-quiescence rule",
          "Held on the executions produced."),
